@@ -35,7 +35,9 @@ def unsat_document(c):
     use = {"dir": f'<rect id="s" xy="{ref}|h 2" wh="2"/>', "loc": f'<rect id="s" xy="{ref}@br 1 1" wh="2"/>',
            "loc-xy2": f'<rect id="s" xy2="{ref}@tl" wh="2"/>', "loc-cxy": f'<circle id="s" cxy="{ref}@c" r="2"/>',
            "scalar-x": f'<rect id="s" x="{ref}~x2" y="0" wh="2"/>', "scalar-x2": f'<rect id="s" x2="{ref}@r 1" y="0" wh="2"/>',
-           "size": f'<rect id="s" xy="0 0" wh="{ref} 50%"/>', "line-xy1": f'<line id="s" xy1="{ref}@r" xy2="9 9"/>',
+           "size": f'<rect id="s" xy="0 0" wh="{ref} 50%"/>', "size-circle": f'<circle id="s" cxy="0 0" wh="{ref}"/>',
+           "size-ellipse": f'<ellipse id="s" cxy="0 0" width="{ref}" height="3"/>', "size-line": f'<line id="s" xy1="0 0" wh="{ref}"/>',
+           "size-width": f'<rect id="s" xy="0 0" width="{ref}~h" height="2"/>', "line-xy1": f'<line id="s" xy1="{ref}@r" xy2="9 9"/>',
            "surround": f'<rect id="s" surround="{ref}" margin="1"/>', "inside": f'<circle id="s" inside="{ref}"/>',
            "connector": f'<line id="s" start="{ref}" end="#ok"/>', "points": f'<polyline id="s" points="{ref}@tl 5 5"/>'}[f]
     if t == "self":
